@@ -183,6 +183,9 @@ def examine(ctx, cases, n_near=0):
         nodes = sorted(sols[0][0]['phi'])
         amp = max([abs(c['params'].get('V', 0)) for c in case['components']] + [abs(c['params'].get('I', 0)) for c in case['components']] + [0.0])
         scale_v = max(max(max(abs(complex(x)) for x in s[0]['phi'].values()) for s in sols), 1e-9 * amp, 1e-300)     # floor: an all-zero solution
+        # the solved vector mixes potentials with the currents of ideal shorts (an inductor at w = 0): a backward-stable solve leaves an error
+        # relative to the largest of them, also on voltages that are exactly zero (netrun.scales, as in C01 / C02)
+        scale_v = max([scale_v] + [netrun.scales(s[0], s[1])[0] for s in sols])
         scale_i = max(netrun.scales(s[0], s[1])[1] for s in sols)
         cond = max(s[2] for s in sols)
         tol = max(1e-8, cond * 1e-13) * len(ws)
